@@ -23,17 +23,26 @@
 (*             key once;   SizeOK - the counter equals the number of keys. *)
 (* Recheck = FALSE drops the table-identity re-check after locking (a      *)
 (* lost insert into a retired table); the instance must then fail.         *)
+(*                                                                         *)
+(* Clear() is a resize with the clear hint: no copy, no bucket locks.  It  *)
+(* linearises at the publication of the empty table; a writer that has     *)
+(* passed its checks in the old table is thereby ordered BEFORE the clear  *)
+(* (its write is lost, `lost`).  ClearOK: when Clear returns, every value  *)
+(* present was written after Clear was called.  ClearRetries = FALSE is    *)
+(* the code before the fix (a Clear that finds the resize flag taken waits *)
+(* and returns without clearing): ClearOK must then fail.                  *)
 (***************************************************************************)
 EXTENDS Integers, Sequences, FiniteSets, TLC
 
 CONSTANTS Keys, S, H2, B2,       \* H2[k]: meta byte of k; B2[k] in {0,1}: root bucket of k in a 2-bucket table
           Writers, Prog,         \* Prog[w]: sequence of <<"put"|"del", key>>
           Getters, GProg,        \* GProg[g]: sequence of keys
-          Resizers, MaxTables, Recheck
+          Resizers, MaxTables, Recheck,
+          Clearers, ClearRetries \* Clear() callers (one call each); ClearRetries = FALSE: the code before the fix
 
 NIL == <<0, 0>>
 E == 0
-Procs == Writers \cup Getters \cup Resizers
+Procs == Writers \cup Getters \cup Resizers \cup Clearers
 
 VARIABLES tabs, cur, resizing, abs, ps, ver, bad
 vars == <<tabs, cur, resizing, abs, ps, ver, bad>>
@@ -73,6 +82,9 @@ SetAbs(k, v) == /\ abs' = [abs EXCEPT ![k] = v]
 Seen(pstate, k, v) == IF pstate.pc \in {"g_ldMeta", "g_ldNode", "g_ldNext"} /\ pstate.k = k
                       THEN [pstate EXCEPT !.seen = @ \cup {v}] ELSE pstate
 WithAbs(newps, k, v) == [p \in Procs |-> Seen(newps[p], k, v)]
+\* a write that a Clear ordered before itself: only readers of the same (old) table can observe it
+WithAbsT(newps, k, v, t) == [p \in Procs |-> IF "t" \in DOMAIN newps[p] /\ newps[p].t = t THEN Seen(newps[p], k, v) ELSE newps[p]]
+IsLost(st) == "lost" \in DOMAIN st /\ st.lost
 
 ----------------------------------------------------------------------------
 (* Getter *)
@@ -106,7 +118,7 @@ GLdNext(g) == /\ ps[g].pc = "g_ldNext"
 (* Writer (Compute) *)
 WStart(w) == /\ ps[w].pc = "idle" /\ ps[w].n <= Len(Prog[w])
              /\ ps' = [ps EXCEPT ![w] = [pc |-> "cp_lock", n |-> ps[w].n, kind |-> Prog[w][ps[w].n][1], k |-> Prog[w][ps[w].n][2],
-                                         t |-> cur, pos |-> <<0, 0>>]]
+                                         t |-> cur, pos |-> <<0, 0>>, lost |-> FALSE]]
              /\ UNCHANGED <<tabs, cur, resizing, abs, ver, bad>>
 WLock(w) == /\ ps[w].pc = "cp_lock"
             /\ LET st == ps[w] r == Root(st.t, st.k) IN
@@ -134,8 +146,9 @@ WWait(w) == /\ ps[w].pc = "cp_wait" /\ ~resizing
 WDelMeta(w) == /\ ps[w].pc = "cp_delMeta"
                /\ LET st == ps[w] r == Root(st.t, st.k) IN
                   /\ tabs' = [tabs EXCEPT ![st.t].chain[r][st.pos[1]].meta[st.pos[2]] = E]
-                  /\ abs' = [abs EXCEPT ![st.k] = NIL]
-                  /\ ps' = WithAbs([ps EXCEPT ![w].pc = "cp_delNode"], st.k, NIL)
+                  /\ abs' = IF IsLost(st) THEN abs ELSE [abs EXCEPT ![st.k] = NIL]
+                  /\ ps' = IF IsLost(st) THEN WithAbsT([ps EXCEPT ![w].pc = "cp_delNode"], st.k, NIL, st.t)
+                            ELSE WithAbs([ps EXCEPT ![w].pc = "cp_delNode"], st.k, NIL)
                /\ UNCHANGED <<cur, resizing, ver, bad>>
 WDelNode(w) == /\ ps[w].pc = "cp_delNode"
                /\ LET st == ps[w] r == Root(st.t, st.k) IN
@@ -149,8 +162,8 @@ WDecSize(w) == /\ ps[w].pc = "cp_decSize"
 WReplNode(w) == /\ ps[w].pc = "cp_replNode"
                 /\ LET st == ps[w] r == Root(st.t, st.k) nv == <<st.k, ver + 1>> IN
                    /\ tabs' = [Unlock(tabs, st.t, r) EXCEPT ![st.t].chain[r][st.pos[1]].ptr[st.pos[2]] = nv]
-                   /\ abs' = [abs EXCEPT ![st.k] = nv] /\ ver' = ver + 1
-                   /\ ps' = WithAbs([ps EXCEPT ![w] = Done(w)], st.k, nv)
+                   /\ abs' = (IF IsLost(st) THEN abs ELSE [abs EXCEPT ![st.k] = nv]) /\ ver' = ver + 1
+                   /\ ps' = IF IsLost(st) THEN WithAbsT([ps EXCEPT ![w] = Done(w)], st.k, nv, st.t) ELSE WithAbs([ps EXCEPT ![w] = Done(w)], st.k, nv)
                 /\ UNCHANGED <<cur, resizing, bad>>
 WInsMeta(w) == /\ ps[w].pc = "cp_insMeta"
                /\ LET st == ps[w] r == Root(st.t, st.k) IN
@@ -160,14 +173,14 @@ WInsMeta(w) == /\ ps[w].pc = "cp_insMeta"
 WInsNode(w) == /\ ps[w].pc = "cp_insNode"
                /\ LET st == ps[w] r == Root(st.t, st.k) nv == <<st.k, ver + 1>> IN
                   /\ tabs' = [Unlock(tabs, st.t, r) EXCEPT ![st.t].chain[r][st.pos[1]].ptr[st.pos[2]] = nv]
-                  /\ abs' = [abs EXCEPT ![st.k] = nv] /\ ver' = ver + 1
-                  /\ ps' = WithAbs([ps EXCEPT ![w].pc = "cp_incSize"], st.k, nv)
+                  /\ abs' = (IF IsLost(st) THEN abs ELSE [abs EXCEPT ![st.k] = nv]) /\ ver' = ver + 1
+                  /\ ps' = IF IsLost(st) THEN WithAbsT([ps EXCEPT ![w].pc = "cp_incSize"], st.k, nv, st.t) ELSE WithAbs([ps EXCEPT ![w].pc = "cp_incSize"], st.k, nv)
                /\ UNCHANGED <<cur, resizing, bad>>
 WLink(w) == /\ ps[w].pc = "cp_link"
             /\ LET st == ps[w] r == Root(st.t, st.k) nv == <<st.k, ver + 1>> IN
                /\ tabs' = [Unlock(tabs, st.t, r) EXCEPT ![st.t].chain[r] = Append(@, [EmptyNode EXCEPT !.meta[1] = H2[st.k], !.ptr[1] = nv])]
-               /\ abs' = [abs EXCEPT ![st.k] = nv] /\ ver' = ver + 1
-               /\ ps' = WithAbs([ps EXCEPT ![w].pc = "cp_incSize"], st.k, nv)
+               /\ abs' = (IF IsLost(st) THEN abs ELSE [abs EXCEPT ![st.k] = nv]) /\ ver' = ver + 1
+               /\ ps' = IF IsLost(st) THEN WithAbsT([ps EXCEPT ![w].pc = "cp_incSize"], st.k, nv, st.t) ELSE WithAbs([ps EXCEPT ![w].pc = "cp_incSize"], st.k, nv)
             /\ UNCHANGED <<cur, resizing, bad>>
 WIncSize(w) == /\ ps[w].pc = "cp_incSize"
                /\ tabs' = [tabs EXCEPT ![ps[w].t].size = @ + 1]
@@ -210,7 +223,40 @@ RClear(r) == /\ ps[r].pc = "rs_clearFlag"
              /\ ps' = [ps EXCEPT ![r] = [pc |-> "idle", n |-> ps[r].n + 1]]
              /\ UNCHANGED <<tabs, cur, abs, ver, bad>>
 
-Next == \/ \E g \in Getters : GStart(g) \/ GLdMeta(g) \/ GLdNode(g) \/ GLdNext(g)
+----------------------------------------------------------------------------
+(* Clearer: Clear() = resize(table, clear hint) *)
+PastChecks == {"cp_delMeta", "cp_replNode", "cp_insMeta", "cp_insNode", "cp_link"}
+CStart(c) == /\ ps[c].pc = "idle" /\ ps[c].n = 1 /\ Len(tabs) < MaxTables
+             /\ IF resizing THEN /\ ps' = [ps EXCEPT ![c] = [pc |-> "cl_wait", n |-> 1, v0 |-> ver]] /\ UNCHANGED resizing
+                ELSE /\ resizing' = TRUE /\ ps' = [ps EXCEPT ![c] = [pc |-> "cl_ldTable", n |-> 1, v0 |-> ver]]
+             /\ UNCHANGED <<tabs, cur, abs, ver, bad>>
+\* returning from Clear: every value present must have been written after the call
+CReturn(c) == ps' = [ps EXCEPT ![c] = [pc |-> "idle", n |-> 2, ok |-> ~\E k \in Keys : abs[k] # NIL /\ abs[k][2] <= ps[c].v0]]
+CWait(c) == /\ ps[c].pc = "cl_wait" /\ ~resizing
+            /\ IF ClearRetries
+               THEN /\ resizing' = TRUE /\ ps' = [ps EXCEPT ![c].pc = "cl_ldTable"]
+               ELSE CReturn(c) /\ UNCHANGED resizing
+            /\ UNCHANGED <<tabs, cur, abs, ver, bad>>
+CLdTable(c) == /\ ps[c].pc = "cl_ldTable"
+               /\ tabs' = Append(tabs, NewTable(1))
+               /\ ps' = [ps EXCEPT ![c] = [pc |-> "cl_publish", n |-> 1, v0 |-> ps[c].v0, nt |-> Len(tabs) + 1]]
+               /\ UNCHANGED <<cur, resizing, abs, ver, bad>>
+CPublish(c) == /\ ps[c].pc = "cl_publish"
+               /\ cur' = ps[c].nt
+               /\ abs' = [k \in Keys |-> NIL]
+               /\ ps' = [p \in Procs |->
+                            IF p = c THEN [ps[c] EXCEPT !.pc = "cl_clearFlag"]
+                            ELSE IF p \in Writers /\ ps[p].pc \in PastChecks THEN [ps[p] EXCEPT !.lost = TRUE]
+                            ELSE IF ps[p].pc \in {"g_ldMeta", "g_ldNode", "g_ldNext"} THEN [ps[p] EXCEPT !.seen = @ \cup {NIL}]
+                            ELSE ps[p]]
+               /\ UNCHANGED <<tabs, resizing, ver, bad>>
+CClearFlag(c) == /\ ps[c].pc = "cl_clearFlag"
+                 /\ resizing' = FALSE
+                 /\ CReturn(c)
+                 /\ UNCHANGED <<tabs, cur, abs, ver, bad>>
+
+Next == \/ \E c \in Clearers : CStart(c) \/ CWait(c) \/ CLdTable(c) \/ CPublish(c) \/ CClearFlag(c)
+        \/ \E g \in Getters : GStart(g) \/ GLdMeta(g) \/ GLdNode(g) \/ GLdNext(g)
         \/ \E w \in Writers : WStart(w) \/ WLock(w) \/ WLocked(w) \/ WWait(w) \/ WDelMeta(w) \/ WDelNode(w) \/ WDecSize(w)
                               \/ WReplNode(w) \/ WInsMeta(w) \/ WInsNode(w) \/ WLink(w) \/ WIncSize(w)
         \/ \E r \in Resizers : RStart(r) \/ RLdTable(r) \/ RCopy(r) \/ RPublish(r) \/ RClear(r)
@@ -218,9 +264,11 @@ Spec == Init /\ [][Next]_vars
 
 ----------------------------------------------------------------------------
 GetOK == ~bad
+ClearOK == \A c \in Clearers : "ok" \in DOMAIN ps[c] => ps[c].ok
 Quiescent == /\ \A p \in Procs : ps[p].pc = "idle"
              /\ \A w \in Writers : ps[w].n > Len(Prog[w])
              /\ \A g \in Getters : ps[g].n > Len(GProg[g])
+             /\ \A c \in Clearers : ps[c].n > 1
 AllNodes(t) == UNION {{tabs[t].chain[r][bi].ptr[i] : bi \in DOMAIN tabs[t].chain[r], i \in 1 .. S} : r \in 0 .. (tabs[t].nb - 1)} \ {NIL}
 Lookup(t, k) == LET f == Find(tabs[t].chain[Root(t, k)], k)
                 IN IF f = <<0, 0>> THEN NIL ELSE tabs[t].chain[Root(t, k)][f[1]].ptr[f[2]]
